@@ -132,11 +132,38 @@ func u16vectors() []u16vec {
 	}
 }
 
+// prefilledConfig: every Config field that ApplyConfig / writeToUConn copies FROM the spec's extensions
+// (ServerName <- SNI, NextProtos <- ALPN / NPN, CurvePreferences <- supported_groups, Renegotiation <-
+// renegotiation_info) already holds a well-formed, non-empty value of the caller's: the spec and the Config
+// disagree, and whatever validation the library runs must look at what is actually marshalled.
+func prefilledConfig(seed int64) *tls.Config {
+	return &tls.Config{ServerName: "config.example", NextProtos: []string{"h2", "http/1.1"},
+		CurvePreferences: []tls.CurveID{tls.X25519, tls.CurveP256}, Renegotiation: tls.RenegotiateOnceAsClient,
+		MinVersion: tls.VersionTLS12, MaxVersion: tls.VersionTLS13, ClientSessionCache: tls.NewLRUClientSessionCache(2),
+		InsecureSkipVerify: true, OmitEmptyPsk: true, Rand: seedReader{rand.New(rand.NewSource(seed))}}
+}
+
+// limitCases builds the table once per Config variant (fresh extension objects each time: ApplyPreset
+// writes into them): "" = a Config that leaves those fields empty, "prefilled" = prefilledConfig.
 func limitCases(c *vh.Ctx) []custom {
+	out := limitCasesFor(c, "")
+	for _, cu := range limitCasesFor(c, "prefilled") {
+		cu.noCoq = true // same bytes as far as the model is concerned: Go-side oracles only
+		out = append(out, cu)
+	}
+	return out
+}
+
+func limitCasesFor(c *vh.Ctx, variant string) []custom {
 	var out []custom
 	add := func(key, desc string, exts []tls.TLSExtension) *custom {
 		cu := custom{key: "limits/" + key, desc: desc,
 			cfg: &tls.Config{ServerName: "", InsecureSkipVerify: true, OmitEmptyPsk: true, Rand: seedReader{rand.New(rand.NewSource(c.Seed))}}}
+		if variant != "" {
+			cu.key += "/cfg-" + variant
+			cu.desc += "; Config with its own well-formed ServerName / NextProtos / CurvePreferences / Renegotiation"
+			cu.cfg = prefilledConfig(c.Seed)
+		}
 		cu.spec = &tls.ClientHelloSpec{TLSVersMin: tls.VersionTLS12, TLSVersMax: tls.VersionTLS13,
 			CipherSuites: []uint16{tls.TLS_AES_128_GCM_SHA256, tls.TLS_ECDHE_RSA_WITH_AES_128_GCM_SHA256}, CompressionMethods: []byte{0}, Extensions: exts}
 		out = append(out, cu)
